@@ -233,7 +233,7 @@ impl<'b> Locator<'b> {
     }
 
     fn value<'a>(&mut self, v: &FieldType<'a>, name: &str, pos: &mut usize, lost: &mut bool, base: usize, path: &str, depth: u32) {
-        if self.nodes > 60_000 || depth > 10 {
+        if self.nodes > 400_000 || depth > 16 {
             *lost = true;
             return;
         }
@@ -278,8 +278,11 @@ impl<'b> Locator<'b> {
                 let start = *pos;
                 let mut elem_size: Option<usize> = None;
                 let mut i = 0usize;
+                // only arrays of plain scalars are sampled; arrays of offsets / records are walked
+                // completely (their elements lead to sub-tables), within the node budget
+                let plain = n > 0 && matches!(a.get(0).as_ref().and_then(scalar_info), Some((_, _, false)));
                 while i < n {
-                    let sampled = i < 3 || i + 1 == n || i % 97 == 0;
+                    let sampled = !plain || i < 3 || i + 1 == n || i % 97 == 0;
                     if !sampled {
                         if let Some(sz) = elem_size {
                             // constant-size elements: jump to the next sampled one
@@ -385,6 +388,7 @@ pub fn run(cfg: &Config, ex: &mut Explorer, corpus: &[(String, Vec<u8>)], synth:
     let mut jobs: Vec<Job> = vec![];
     let (mut located, mut lost, mut resyncs, mut by_class) = (0usize, 0usize, 0usize, [0usize; 3]);
     let mut n_pairs = 0usize;
+    let mut n_kinds = 0usize;
     for (name, bytes) in corpus.iter().chain(synth.iter()) {
         let (fields, l, r) = match catch(|| locate(bytes)) {
             Ok(x) => x,
@@ -411,11 +415,29 @@ pub fn run(cfg: &Config, ex: &mut Explorer, corpus: &[(String, Vec<u8>)], synth:
                 let mut fs: Vec<&FieldLoc> = fields.iter().filter(|f| f.table == tag && f.class == class).collect();
                 by_class[class as usize] += fs.len();
                 let cap = caps[class as usize];
-                // deterministic sample: keep the first `cap/2` (headers) and a seeded choice of the rest
+                // deterministic sample, stratified by field KIND (the path with array indices removed):
+                // every kind of field of the table is mutated at least `per_kind` times, whatever the
+                // size of the table; then the first `cap/2` fields (headers) and a seeded choice of the rest
                 let mut chosen: Vec<&FieldLoc> = vec![];
+                let per_kind = if thorough { 12 } else { 1 };
+                let mut seen_kind: std::collections::BTreeMap<String, usize> = Default::default();
+                let mut rest: Vec<&FieldLoc> = vec![];
+                for f in fs.drain(..) {
+                    let kind: String = f.path.chars().filter(|c| !c.is_ascii_digit()).collect();
+                    let k = seen_kind.entry(kind).or_insert(0);
+                    if *k < per_kind {
+                        *k += 1;
+                        chosen.push(f);
+                    } else {
+                        rest.push(f);
+                    }
+                }
+                n_kinds += seen_kind.len();
+                let mut fs = rest;
                 let head = (cap / 2).max(1).min(fs.len());
+                let target = chosen.len() + cap;
                 chosen.extend(fs.drain(..head));
-                while chosen.len() < cap && !fs.is_empty() {
+                while chosen.len() < target && !fs.is_empty() {
                     let i = rng.below(fs.len() as u64) as usize;
                     chosen.push(fs.swap_remove(i));
                 }
@@ -510,7 +532,7 @@ pub fn run(cfg: &Config, ex: &mut Explorer, corpus: &[(String, Vec<u8>)], synth:
     });
     ex.absorb(done);
     format!(
-        "field extremes: {located} verified numeric fields located by traversal in {} base fonts (count-like {}, other scalars {}, offsets {}; {lost} tables abandoned after a layout mismatch, {resyncs} resynchronisations), {n_jobs} single-field / adjacent-pair mutants ({n_pairs} adjacent element / header-field pairs available)",
+        "field extremes: {located} verified numeric fields located by traversal in {} base fonts (count-like {}, other scalars {}, offsets {}; {lost} tables abandoned after a layout mismatch, {resyncs} resynchronisations), {n_jobs} single-field / adjacent-pair mutants ({n_kinds} field kinds, each mutated at least once; {n_pairs} adjacent element / header-field pairs available)",
         corpus.len() + synth.len(),
         by_class[0],
         by_class[1],
